@@ -19,6 +19,10 @@ Checks (one per clause of the statement):
   C05/get-input-split     synchronous Screen.get_input(): complete streams split by one cut.
   C05/get-input-timeout   synchronous Screen.get_input(): a truncated sequence is decoded as it stands once
                           complete_wait has expired.
+  C05/get-input-history   synchronous Screen.get_input() WITHOUT an event loop (max_wait=None: blocking, and a
+                          polling max_wait) on a VIRTUAL clock: histories of reads and silences in which a read
+                          holds complete keys followed by an incomplete sequence; events == the segments between
+                          silences decoded as they stand (nothing lost, nothing glued to later input).
   C05/random-streams      seeded random byte strings over all 256 values with random 3-cut schedules
                           (all of the above oracles; not exhaustive).
 """
@@ -28,6 +32,7 @@ import io
 import itertools
 import multiprocessing
 import os
+import selectors
 import threading
 import time
 
@@ -36,7 +41,7 @@ from spec import termdecode
 from spec.termdecode import UNSPEC, ref_decode
 
 from urwid import str_util
-from urwid.display import escape
+from urwid.display import _posix_raw_display, _raw_display_base, escape
 from urwid.display.raw import Screen
 
 ENCODINGS = ("utf8", "narrow", "wide")
@@ -105,6 +110,8 @@ CHECKS = {
     "C05/fragmentation": "every schedule (cut positions x timeout fired or not after each cut; final timeout always fired) through hook_event_loop/parse_input: events == concat of process_keyqueue-to-the-end(segment, more=False) over the segments between fired timeouts; callback raw codes concatenate to the stream and each callback's keys are the decoding of its raw codes; <= 1 alarm, of complete_wait; nothing pending at the end",
     "C05/get-input-split": "Screen.get_input(raw_keys=True) (max_wait=0) after each of two chunks of a stream made of complete units: events == decoding of the whole, raw == stream",
     "C05/get-input-timeout": "Screen.get_input() polled again (no new input) after complete_wait has expired: the pending truncated sequence is decoded as it stands",
+    "C05/get-input-history": "Screen.get_input() / get_input(raw_keys=True) on a pipe without an event loop, blocking (max_wait=None) and polling (max_wait=0.05), virtual clock (select() of the display modules scripted: a read arrives 1 ms after the previous one, a silence lasts 1 s = 8 x complete_wait): events over all calls == concatenation of the as-they-stand decodings (real decoder and, where defined, the independent reference) of the segments between silences; raw codes concatenate to the stream; no call returns with bytes pending once complete_wait of silence has passed since they arrived; get_input is never left holding bytes when nothing more will come",
+    "C05/get-input-resize": "the same histories and oracle with terminal resizes (the screen's SIGWINCH handler run at scripted virtual times) interleaved, so that get_input()'s resize throttling is entered; 'window resize' events are ignored by the oracle, every decoded event must still be the as-they-stand decoding of the segments between silences",
     "C05/random-streams": "seeded random byte strings (all 256 byte values, escape-heavy mix), random 3-cut schedules with random timeouts: no-raise/progress, names (where the reference is defined) and fragmentation oracles",
 }
 
@@ -163,7 +170,7 @@ class FakeLoop:
 class Harness:
     """A started raw Screen on a pipe + StringIO (never a tty; signal handlers are not installed)."""
 
-    def __init__(self, hooked=True):
+    def __init__(self, hooked=True, max_wait=0):
         self.r, self.w = os.pipe()
         self.rfile = os.fdopen(self.r, "rb", buffering=0)
         self.out = io.StringIO()
@@ -175,8 +182,9 @@ class Harness:
         if hooked:
             self.scr.hook_event_loop(self.loop, lambda keys, raw: self.got.append((list(keys), list(raw))))
             self.deliver = self.loop.watch[self.r]
-        else:
-            self.scr.set_input_timeouts(max_wait=0)  # get_input() must never block on "no input"
+        elif max_wait is not None:
+            self.scr.set_input_timeouts(max_wait=max_wait)  # 0: get_input() must never block on "no input"
+        # max_wait=None: the default, get_input() blocks until input arrives (only used on the virtual clock)
 
     def close(self):
         try:
@@ -194,7 +202,21 @@ class Ctx:
     def __init__(self):
         self.h = None
         self.hs = None
+        self.hv = {}  # max_wait -> Harness for the virtual-clock histories
         self.dcache = {}
+
+    def virt(self, max_wait):
+        if self.hv.get(max_wait) is None:
+            self.hv[max_wait] = Harness(False, max_wait)
+        return self.hv[max_wait]
+
+    def drop_virt(self, max_wait):
+        h = self.hv.pop(max_wait, None)
+        if h is not None:
+            try:
+                h.close()
+            except Exception:  # noqa: BLE001  (harness teardown only)
+                pass
 
     def hooked(self):
         if self.h is None:
@@ -218,6 +240,8 @@ class Ctx:
     def close(self):
         self.drop("h")
         self.drop("hs")
+        for mw in list(self.hv):
+            self.drop_virt(mw)
 
     def D(self, enc, data):
         """decode_final with a cache; returns ("ok", events) or ("raised", text)."""
@@ -460,6 +484,217 @@ def ev_sync(ctx, enc, data, cut, truncated):
 
 
 # ----------------------------------------------------------------------------------------------------------
+# virtual time for the synchronous path.  The display modules wait with `selectors.DefaultSelector().select(t)`;
+# while a VClock is active that call is answered from a script instead of the wall clock: the real selector is
+# polled (select(0)) on the real pipe, and when nothing is readable the virtual clock jumps - to the next scripted
+# arrival (which is then really written to the pipe) if it falls within the timeout, else by the timeout.  Nothing
+# of urwid is replaced: _wait_for_input_ready, _read_raw_input, get_available_raw_input, parse_input and
+# get_input are the real ones; only "what the operating system does while we sleep" is scripted.
+SOON, PAUSE = 0.001, 1.0  # gap before a read: "arrives before the completion timeout" / "silence outlasting it"
+COMPLETE_WAIT = 0.125  # the Screen's default; PAUSE = 8 x, SOON = 1/125 x
+
+
+class BlocksForever(Exception):
+    """An unbounded wait was entered although nothing more will ever arrive."""
+
+
+RESIZE = None  # a "read" that is no bytes but the terminal being resized (SIGWINCH delivered to the screen)
+
+
+class VClock:
+    def __init__(self, wfd, reads, on_resize=None):
+        """reads: [(gap_before, bytes | RESIZE)] - absolute arrival times are the running sum of the gaps."""
+        self.now = 0.0
+        self.wfd = wfd
+        self.on_resize = on_resize
+        self.q = []
+        t = 0.0
+        for gap, chunk in reads:
+            t += gap
+            self.q.append((t, chunk))
+        self.last_arrival = None  # of bytes
+
+    def deliver_due(self):
+        while self.q and self.q[0][0] <= self.now + 1e-9:
+            t, chunk = self.q.pop(0)
+            if chunk is RESIZE:
+                self.on_resize()  # what the operating system does: run the screen's SIGWINCH handler
+            else:
+                os.write(self.wfd, chunk)
+                self.last_arrival = t
+
+    def sleep(self, timeout):
+        """Nothing is readable: sleep for `timeout` (None: until input arrives)."""
+        if not self.q:
+            if timeout is None:
+                raise BlocksForever
+            self.now += timeout
+            return
+        t = self.q[0][0]
+        if timeout is None or self.now + timeout >= t - 1e-9:
+            self.now = max(self.now, t)
+            self.deliver_due()
+        else:
+            self.now += timeout
+
+
+_VCLOCK = [None]
+
+
+class VSelector:
+    """selectors.DefaultSelector() as seen by the display modules (context manager, register, select)."""
+
+    def __init__(self):
+        self.real = selectors.DefaultSelector()
+
+    def __enter__(self):
+        return self
+
+    def __exit__(self, *exc):
+        self.real.close()
+        return False
+
+    def close(self):
+        self.real.close()
+
+    def register(self, fileobj, events, data=None):
+        return self.real.register(fileobj, events, data)
+
+    def unregister(self, fileobj):
+        return self.real.unregister(fileobj)
+
+    def select(self, timeout=None):
+        vc = _VCLOCK[0]
+        if vc is None:
+            return self.real.select(timeout)
+        vc.deliver_due()
+        ready = self.real.select(0)
+        if ready or (timeout is not None and timeout <= 0):
+            return ready
+        vc.sleep(timeout)
+        return self.real.select(0)
+
+
+class _VSelectors:
+    """Stand-in for the `selectors` module inside the two display modules."""
+
+    DefaultSelector = VSelector
+    EVENT_READ = selectors.EVENT_READ
+    EVENT_WRITE = selectors.EVENT_WRITE
+
+
+class virtual_time:
+    def __init__(self, vclock):
+        self.vc = vclock
+
+    def __enter__(self):
+        self.saved = (_raw_display_base.selectors, _posix_raw_display.selectors, _VCLOCK[0])
+        _raw_display_base.selectors = _VSelectors
+        _posix_raw_display.selectors = _VSelectors
+        _VCLOCK[0] = self.vc
+        return self.vc
+
+    def __exit__(self, *exc):
+        _raw_display_base.selectors, _posix_raw_display.selectors, _VCLOCK[0] = self.saved
+        return False
+
+
+def history_segments(reads):
+    """The byte strings between silences (a PAUSE gap before a read starts a new segment)."""
+    segs = [b""]
+    for gap, chunk in reads:
+        if gap >= PAUSE and segs[-1]:
+            segs.append(b"")
+        if chunk is not RESIZE:
+            segs[-1] += bytes(chunk)
+    return [s for s in segs if s]
+
+
+def _readable(h):
+    with selectors.DefaultSelector() as sel:
+        sel.register(h.r, selectors.EVENT_READ)
+        return bool(sel.select(0))
+
+
+MODES = {"block": (None, False), "block-raw": (None, True), "poll-raw": (0.05, True)}
+
+
+def ev_history(ctx, enc, reads, mode):
+    """C05/get-input-history; reads = [(gap_before, bytes)], mode in MODES"""
+    max_wait, raw_keys = MODES[mode]
+    reads = [(g, c if c is RESIZE else bytes(c)) for g, c in reads]
+    data = b"".join(c for _g, c in reads if c is not RESIZE)
+    resizes = any(c is RESIZE for _g, c in reads)
+    base = {"enc": enc, "mode": mode, "stream": jl(data), "reads": [["PAUSE" if g >= PAUSE else "soon", "RESIZE" if c is RESIZE else jl(c)] for g, c in reads],
+            "reads_repr": " ".join(("<silence> " if g >= PAUSE and i else "") + ("<resize>" if c is RESIZE else repr(c)) for i, (g, c) in enumerate(reads))}
+    want, ref = [], []
+    for seg in history_segments(reads):
+        st, v = ctx.D(enc, seg)
+        if st != "ok":
+            return False, base | {"cls": "raised " + v.split(":")[0], "why": f"decoding segment {list(seg)!r} as it stands raised {v}"}, True
+        want.extend(v)
+        ref.extend(ref_decode(seg, enc))
+    base["expected"] = jev(want)
+    h = ctx.virt(max_wait)
+    evs, raws, problems = [], [], []
+    vc = VClock(h.w, reads, h.scr._sigwinch_handler)
+    try:
+        with virtual_time(vc):
+            for _call in range(80):
+                vc.deliver_due()
+                if not vc.q and not _readable(h) and not h.scr._resized:
+                    if not h.scr._partial_codes:
+                        break
+                    if max_wait is None:
+                        problems.append(f"get_input() returned holding {list(h.scr._partial_codes)!r} although nothing is readable; the next call blocks for ever: the bytes are lost")
+                        break
+                t0 = vc.now
+                r = h.scr.get_input(raw_keys=True) if raw_keys else h.scr.get_input()
+                if raw_keys:
+                    if not (isinstance(r, tuple) and len(r) == 2):
+                        problems.append(f"get_input(raw_keys=True) returned {type(r).__name__}, not (keys, raw)")
+                        break
+                    keys, raw = r
+                    raws.extend(raw)
+                else:
+                    keys = r
+                if not isinstance(keys, list):
+                    problems.append(f"get_input() returned {type(keys).__name__}, not a list")
+                    break
+                evs.extend(k for k in keys if not (resizes and k == "window resize"))  # (resizes are not decoded input)
+                pend = list(h.scr._partial_codes)
+                if pend and not _readable(h) and vc.last_arrival is not None and vc.now - vc.last_arrival >= h.scr.complete_wait - 1e-9:
+                    problems.append(f"get_input() returned at t={vc.now:.3f} with {pend!r} still pending, {vc.now - vc.last_arrival:.3f} s after the last byte arrived (complete_wait {h.scr.complete_wait}) and nothing readable")
+                    break
+                if not keys and vc.now == t0:
+                    vc.now += 0.01  # the application does something else between two polls
+            else:
+                problems.append("still input or pending bytes after 80 get_input() calls")
+    except BlocksForever:
+        problems.append(f"get_input() entered an unbounded wait holding {list(h.scr._partial_codes)!r} when nothing more would arrive")
+    except Exception as e:  # noqa: BLE001
+        ctx.drop_virt(max_wait)
+        return False, base | {"cls": exc_cls(e), "why": f"raised {type(e).__name__}: {e}"[:300]}, True
+    base["events"] = jev(evs)
+    pending = list(h.scr._partial_codes)
+    if problems or pending or _readable(h):
+        ctx.drop_virt(max_wait)  # fresh screen + pipe for the next case
+    if evs != want:
+        glued = "; ".join(problems)
+        return False, base | {"cls": "events differ from the as-they-stand decoding of the segments", "pending": pending,
+                              "why": "get_input() events differ from decoding each segment between silences as it stands" + (f" ({glued})" if glued else "")}, True
+    if problems:
+        return False, base | {"cls": "pending bytes held back past the timeout", "pending": pending, "why": "; ".join(problems)}, True
+    if pending:
+        return False, base | {"cls": "pending bytes never decoded by get_input", "pending": pending, "why": "nothing more will arrive yet bytes stay in _partial_codes"}, True
+    if raw_keys and raws != list(data):
+        return False, base | {"cls": "raw codes lost or duplicated", "raw": raws, "why": "raw codes do not concatenate to the stream"}, True
+    if UNSPEC not in ref and evs != ref:
+        return False, base | {"cls": "events differ from the reference", "reference": jev(ref), "why": "events differ from the independent reference decoding of the segments"}, True
+    return True, base, any(g >= PAUSE for g, _c in reads[1:])
+
+
+# ----------------------------------------------------------------------------------------------------------
 # input pools
 def e(s):
     return b"\x1b" + (s if isinstance(s, bytes) else s.encode("ascii"))
@@ -519,6 +754,92 @@ MALFORMED = [e("[<M"), e("[<1;2M"), e("[<a;2;3M"), e("[<1;2;3;4M"), e("[<;;M"), 
              e("[99z"), e("[1;9A"), e("O"), e("OZ"), e("["), e("[["), e("[[Z"), e("[1"), e("[1;"), e("[1;5"), e("[20"), e("[200"), e("[20;"), e("[34;8"), e("[35~")]
 
 
+# Bytes >= 0x80 for which CPython's *str* predicates answer as they do for ASCII characters: chr(b).isdigit() is
+# true for the superscripts 0xB2 0xB3 0xB9, .isnumeric() also for the fractions 0xBC-0xBE, .isalpha() for 0xAA 0xBA
+# 0xB5, .isspace() for 0x85 0xA0.  A report is made of ASCII digits only; none of these bytes may be taken for one.
+LIARS = tuple(b for b in range(128, 256) if chr(b).isdigit() or chr(b).isnumeric()) + (0xAA, 0xBA, 0xB5, 0xA0, 0x85)
+LIAR_BASES = [e("[12;40R"), e("[7;9R"), e("[<0;12;40M"), e("[<35;7;9m"), e(b"[M !!"), e("[15~"), e("[1;5C")]
+
+
+def liar_streams(tier):
+    """(stream, cutlevel): every LIAR byte substituted for / inserted before every byte after ESC of a cursor
+    report, an SGR and an X10 mouse report and two table sequences with parameters, also followed by a key."""
+    for s in LIAR_BASES:
+        for pos in range(1, len(s) + 1):
+            for n, b in enumerate(LIARS):
+                lvl = 1 if (tier != "quick" or n % 4 == 0) else 0
+                yield s[:pos] + bytes([b]) + s[pos:], lvl
+                if pos < len(s):
+                    yield s[:pos] + bytes([b]) + s[pos + 1 :], lvl
+                    if tier != "quick" or n < 3:
+                        yield s[:pos] + bytes([b]) + s[pos + 1 :] + b"q", 0
+
+
+def history_pool(tier, enc):
+    """[(reads, mode)] for C05/get-input-history: complete keys FOLLOWED BY an incomplete sequence in one read
+    (or in successive prompt reads), a silence, then more input (or none)."""
+    quick = tier == "quick"
+    heads = [b"", b"a", b"xy", e("[A"), e("[12;40R"), e(b"[M !!")]
+    tails = [b"\x1b", e("["), e("[1"), e("[1;"), e("[1;5"), e("O"), e("[<"), e("[<0;1"), e("[<0;1;1"), e("[M"), e("[M "), e("[M !"), e("[12;"), e("[12;4"), e(b"\x1b"), e(b"\x1b[")]
+    conts = [b"", b"b", b"A", b"[B", b"~", b"\x1b", b";5C", b"0R", b"!", b"M"]
+    if enc == "utf8":
+        heads.append("€".encode())
+        tails += [b"\xe2", b"\xe2\x94", b"\xf0\x9f\x98", e(b"\xe2\x94")]
+        conts += [b"\xbc", b"\x80"]
+    elif enc == "wide":
+        heads.append(b"\xa4\xa2")
+        tails += [b"\xa4", e(b"\xa4")]
+        conts += [b"\xa2"]
+    else:
+        heads.append(b"\xe9")
+    modes = list(MODES)
+    out = []
+    n = 0
+    for head, tail, cont in itertools.product(heads, tails, conts):
+        n += 1
+        rot = modes[n % 3]
+        after = [(PAUSE, cont)] if cont else []
+        # A: keys + incomplete tail in ONE read, silence, later input - in every mode
+        for m in modes:
+            out.append(([(SOON, head + tail), *after], m))
+        if quick and n % 3:
+            continue
+        # B: the tail arrives in its own prompt read
+        if head:
+            out.append(([(SOON, head), (SOON, tail), *after], rot))
+        # C: the continuation arrives in time (no silence): same events as the whole
+        if cont:
+            out.append(([(SOON, head + tail), (SOON, cont)], rot))
+        # D: the tail itself is cut across two prompt reads
+        for k in range(1, len(tail)):
+            if k == 1 or not quick:
+                out.append(([(SOON, head + tail[:k]), (SOON, tail[k:]), *after], rot))
+        # E: two silences, each after keys + incomplete tail
+        out.append(([(SOON, head + tail), (PAUSE, head + tail), *after], rot))
+    return out
+
+
+def resize_pool(tier, enc):
+    """[(reads, mode)] for C05/get-input-resize: 1-3 resizes (the 2nd and 3rd enter the throttling of get_input)
+    with keys / incomplete tails arriving at once, promptly after, or a silence after the last resize."""
+    heads = [b"", b"a", e("[A")]
+    tails = [b"", b"\x1b", e("["), e("[1;"), e("[<0;1"), e("[M "), e("[12;")]
+    tails += {"utf8": [b"\xe2\x94"], "wide": [b"\xa4"], "narrow": []}[enc]
+    conts = [b"", b"b", b"A", b"~"]
+    out = []
+    for nres, head, tail, cont in itertools.product((1, 2, 3), heads, tails, conts):
+        if not head + tail:
+            continue
+        rs = [(SOON if j == 0 else PAUSE, RESIZE) for j in range(nres)]
+        after = [(PAUSE, cont)] if cont else []
+        for m in MODES:
+            out.append(([*rs, (SOON, head + tail), *after], m))  # input right behind the last resize
+            out.append(([*rs[:-1], (rs[-1][0], head + tail), (SOON, RESIZE), *after], m))  # resize right behind the input
+        if tier != "quick" or nres == 2:
+            out.append(([*rs, (PAUSE, head + tail), *after], "block-raw"))  # input a silence after the resizes
+    return out
+
+
 def streams_for(tier, enc, seed):
     """Yield (kind, data, cutlevel, sync) - cutlevel: 0 whole only, 1 all 1-cut schedules, 2 also all 2-cut schedules."""
     quick = tier == "quick"
@@ -560,6 +881,8 @@ def streams_for(tier, enc, seed):
         add("malformed", s, 2)
         add("malformed+key", s + b"a", 2 if len(s) < 9 else 1)
         add("malformed+seq", s + e("[A"), 1)
+    for d, lvl in liar_streams(tier):
+        add("report+non-ascii-digit", d, lvl)
     # every proper prefix of every sequence, alone (flushed by the timeout) and followed by a key
     base = tbl + x10_streams("quick")[::16] + sgr_streams("quick")[::10] + cpr_streams("quick")[::5]
     for s in base:
@@ -656,6 +979,16 @@ def eval_stream(ctx, chk, enc, kind, data, lvl, sync):
     elif sync == "trunc":
         ok, d, nt = ev_sync(ctx, enc, data, None, True)
         chk["C05/get-input-timeout"].case((enc, data), ok, d | {"kind": kind}, nt, smp)
+    if kind == "truncated":
+        # every proper prefix of every sequence, behind a complete key in the same read, then silence, then a key
+        eval_history(ctx, chk, enc, [(SOON, b"k" + data), (PAUSE, b"z")], "block-raw", kind)
+
+
+def eval_history(ctx, chk, enc, reads, mode, kind="history"):
+    ok, d, nt = ev_history(ctx, enc, reads, mode)
+    key = (enc, mode, tuple((g, c if c is RESIZE else bytes(c)) for g, c in reads))
+    name = "C05/get-input-resize" if any(c is RESIZE for _g, c in reads) else "C05/get-input-history"
+    chk[name].case(key, ok, d | {"kind": kind}, nt, {"enc": enc, "mode": mode, "reads": d.get("reads_repr")})
 
 
 def eval_random(ctx, chk, enc, data, cuts, fires):
@@ -690,6 +1023,9 @@ def worker(args):
             for i, (data, cuts, fires) in enumerate(random_streams(tier, enc, seed)):
                 if i % nshards == shard:
                     eval_random(ctx, chk, enc, data, cuts, fires)
+            for i, (reads, mode) in enumerate(history_pool(tier, enc) + resize_pool(tier, enc)):
+                if i % nshards == shard:
+                    eval_history(ctx, chk, enc, reads, mode)
     finally:
         ctx.close()
         str_util.set_byte_encoding(saved)
@@ -702,6 +1038,7 @@ def bound_text(tier):
         f"3 encodings x [all {len(table_streams())} table sequences, X10 reports (128 button bytes x {3 if quick else 8} coordinate pairs), "
         f"SGR reports ({len(sgr_streams(tier))}), cursor reports ({len(cpr_streams(tier))}), all 256 single bytes and ESC+byte, UTF-8/double-byte characters valid and invalid, "
         f"{len(MALFORMED)} malformed/nested reports, every proper prefix of every sequence, all pairs of {len(unit_pool('utf8'))} representative units, "
+        f"every non-ASCII byte that str.isdigit/isnumeric/isalpha/isspace accept ({len(LIARS)}) substituted/inserted at every position of {len(LIAR_BASES)} reports/sequences, "
         f"all garbage strings of length <= {3 if quick else 4} over 12 representative bytes{'' if quick else ' (length 5: decoder-level oracles only)'}] x every 1-cut and (for the subset marked level 2: all in thorough except long SGR) every 2-cut split x timeout fired or not after each cut; "
         f"{1500 if quick else 40000} seeded random streams per encoding with 3 cuts; real Screen on an os.pipe with a scripted event loop"
     )
@@ -722,10 +1059,12 @@ def run(tier="quick", seed=0):
     bound = bound_text(tier)
     out = []
     for n, c in chk.items():
-        c.bound = bound if n not in ("C05/get-input-split", "C05/get-input-timeout", "C05/random-streams") else {
+        c.bound = bound if n not in ("C05/get-input-split", "C05/get-input-timeout", "C05/random-streams", "C05/get-input-history", "C05/get-input-resize") else {
             "C05/get-input-split": "3 encodings x pairs of the representative units (every 3rd pair in quick, all in thorough) x every 1-cut; second chunk written 2 ms after the first, complete_wait 0.5 s",
             "C05/get-input-timeout": "3 encodings x proper prefixes (<= 3 bytes in quick, all in thorough) of every sequence",
             "C05/random-streams": f"{1500 if tier == 'quick' else 40000} seeded random streams per encoding, <= 3 cuts",
+            "C05/get-input-resize": f"3 encodings x {len(resize_pool(tier, 'utf8'))} histories [1-3 resizes x 3 heads x 7-8 incomplete tails x 4 continuations x (input right behind the last resize | resize right behind the input | input a silence later)] x {{blocking, blocking raw_keys, polling}}; virtual clock",
+            "C05/get-input-history": f"3 encodings x {len(history_pool(tier, 'utf8'))} histories [7 complete heads (none, keys, a sequence, a cursor report, a mouse report, a multi-byte character) x 16-20 incomplete tails (ESC, truncated CSI/SS3/SGR/X10/cursor reports, ESC ESC, truncated multi-byte characters) x 10-12 continuations, as: head+tail in one read | head, tail in prompt reads | tail cut in two | continuation in time | two silences] x {{blocking, blocking raw_keys, polling max_wait=0.05}} (all three for the one-read shape), plus every proper prefix of every sequence behind a key; virtual clock",
         }[n]
         r = c.result()
         r["wall_s"] = round(time.time() - t0, 2)
@@ -754,6 +1093,9 @@ def replay(check_name, case):
             ok, d, _ = ev_sync(ctx, enc, data, case["cut"], False)
         elif check_name == "C05/get-input-timeout":
             ok, d, _ = ev_sync(ctx, enc, data, None, True)
+        elif check_name in ("C05/get-input-history", "C05/get-input-resize"):
+            reads = [(PAUSE if g == "PAUSE" else SOON, RESIZE if c == "RESIZE" else bytes(c)) for g, c in case["reads"]]
+            ok, d, _ = ev_history(ctx, enc, reads, case["mode"])
         elif check_name == "C05/random-streams":
             c = new_checks("quick")
             eval_random(ctx, c, enc, data, tuple(case.get("cuts", ())), tuple(case.get("fires", ())))
